@@ -532,7 +532,7 @@ pub fn run(env: &Env, rep: &Report) {
         eprintln!("[measure] extreme: {:?}", *MEASURED.lock().unwrap());
         return;
     }
-    par_generated(rep, "box-regular", || box_seq(false), env.tier.pick(4_000, 100_000), w, check_box_seq);
+    par_generated(rep, "box-regular", || box_seq(false), env.tier.pick(10_000, 200_000), w, check_box_seq);
     par_generated(rep, "box-extreme", || box_seq(true), env.tier.pick(2_000, 50_000), w, check_box_seq);
     par_generated(rep, "stationary", || ((0.005f32..0.5), (0.0005f32..0.05), cmax_class().prop_flat_map(ubox), 1usize..300).prop_map(|(wp, wv, mut b, n)| {
         b.xc = b.xc.abs().max(1.0);
@@ -546,7 +546,7 @@ pub fn run(env: &Env, rep: &Report) {
         use crate::trk::Kind;
         use proptest::prelude::*;
         let pool = IsoPool::new(&env.prop, "tracker-filter", std::time::Duration::from_secs(120));
-        let n = env.tier.pick(300, 8_000);
+        let n = env.tier.pick(800, 12_000);
         for kind in [Kind::Sort, Kind::VisualSort, Kind::BatchSort, Kind::BatchVisualSort] {
             let strat = move || {
                 (crate::props::c13::lifetime(kind), prop_oneof![1 => Just((0.05f32, 0.00625f32)), 3 => (0.01f32..0.3, 0.001f32..0.03)]).prop_map(|(mut h, (wp, wv))| {
